@@ -98,7 +98,7 @@ CLAIMED = {
          'DESIGN.md section 6 C13'),
  'C14': ('Coq proof (positive power entry iff walk; soundness and completeness of the power test via the Wielandt bound; boolean powers) + two-layer differential correspondence',
          'proof: entry of T^k positive iff walk of length k; reported ergodic => strongly connected, aperiodic, primitive; conversely (Wielandt bound (n-1)^2+1, proved for every n in Proofs/Wielandt.v) strongly connected and aperiodic => every entry of the power positive, so for accepted threshold-free matrices '
-         'is_ergodic <=> strongly connected and aperiodic (is_ergodic_iff_graph_thm); ergodic => fuzzy; non-stochastic => neither; the mask clause: see evidence (theorems of Proofs/MaskFacts.v when present) and the comparison with an independent exact graph algorithm (all 4x4 supports in the thorough tier). '
+         'is_ergodic <=> strongly connected and aperiodic (is_ergodic_iff_graph_thm); ergodic => fuzzy; non-stochastic => neither; the mask clause (Proofs/MaskFacts.v): when every class with a cycle is aperiodic the executable mask marks exactly the states whose communicating class has maximal size, hence the largest closed class(es) under the property\'s guard (ergodic_mask_classes_thm, mask_largest_closed_thm). All of this also compared on every case with an independent exact graph algorithm. '
          'Tie: implementation vs exact thresholded power away from the thresholds; model vs graph specification on threshold-free cases.',
          COMMON_NOTE + 'np.linalg.matrix_power floats trusted away from the 1e-8 threshold (cases within 1e-12 skipped and counted).',
          'DESIGN.md section 6 C14'),
